@@ -23,6 +23,9 @@ _pbase.threading = types.SimpleNamespace(RLock=e3.CoopRLock, Lock=e3.CoopRLock)
 
 ID = "C20"
 LEVEL = "model_checking"
+# every shard starts in a newly forked worker: the first execution of a scenario in a process includes utype's one-time
+# lazy initialisations (more scheduling points), so the schedule count would otherwise depend on the worker's history
+FRESH_WORKER_PER_SHARD = True
 RULE = ("schedules: for each of 13 scenarios (first parse of classes with pending forward references - module level and "
         "function-local; first parse of mutually recursive classes from both ends; conversions racing a registration in "
         "the shared converter registry; first calls of a decorated function with forward-referenced types; concurrent "
